@@ -51,7 +51,13 @@ struct RecUpstream : public std::pmr::memory_resource {
 };
 
 struct Blk { char* p; size_t n, al; unsigned char pat; };
-struct Tracked { std::atomic<int>* counter; ~Tracked() { counter->fetch_add(1, std::memory_order_relaxed); } };
+static RecPages* g_pages = nullptr;
+// release() runs every registered destructor and only then gives memory back: a destructor may look at blocks of other threads
+struct Tracked { std::atomic<int>* counter; const unsigned char* peer; ~Tracked() {
+  int ret = 0; for (int i = 0; i < RecPages::N; i++) ret += g_pages->returned[i].load(std::memory_order_relaxed);
+  bbmc::check(ret == 0, "a page went back to the page allocator before all registered destructors had run");
+  if (peer) bbmc::check(*peer == 0x5a, "a registered destructor found another thread's block already recycled");
+  counter->fetch_add(1, std::memory_order_relaxed); } };
 
 static const char* names[] = {
     "shared: 2 threads x (alloc 8/8, alloc 40/16, alloc 100/8 -> new page), release",
@@ -78,7 +84,7 @@ static void verify_blocks(std::vector<Blk>& all, RecPages& pages, RecUpstream& u
 
 void harness_main(int cfg) {
   bbmc::sleeps_advance_clock(false);
-  RecPages pages; RecUpstream up;
+  RecPages pages; RecUpstream up; g_pages = &pages;
   std::vector<Blk> got[3]; std::atomic<int> dtor[4]; for (auto& d : dtor) d = 0; bbmc::background(dtor, sizeof dtor);
   auto take = [&](SharedMonotonicBufferResource& r, int t, size_t n, size_t al, unsigned char pat) { Blk b{(char*)r.allocate(n, al), n, al, pat}; bbmc::check(b.p != nullptr, "allocate returned null"); fill(b); got[t].push_back(b); };
   auto all_blocks = [&] { std::vector<Blk> all; for (auto& g : got) all.insert(all.end(), g.begin(), g.end()); return all; };
@@ -102,9 +108,11 @@ void harness_main(int cfg) {
       Tracked* objs[4];
       {
         SharedMonotonicBufferResource res(pages); res.set_upstream(up);
-        std::thread a([&] { for (int i = 0; i < 2; i++) { objs[i] = new (res.allocate(sizeof(Tracked), alignof(Tracked))) Tracked{&dtor[i]}; res.register_destructor(objs[i]); } });
-        std::thread b([&] { for (int i = 2; i < 4; i++) { objs[i] = new (res.allocate(sizeof(Tracked), alignof(Tracked))) Tracked{&dtor[i]}; res.register_destructor(objs[i]); } });
+        unsigned char* mark[2] = {nullptr, nullptr};
+        std::thread a([&] { mark[0] = (unsigned char*)res.allocate(1, 1); *mark[0] = 0x5a; for (int i = 0; i < 2; i++) { objs[i] = new (res.allocate(sizeof(Tracked), alignof(Tracked))) Tracked{&dtor[i], nullptr}; res.register_destructor(objs[i]); } });
+        std::thread b([&] { mark[1] = (unsigned char*)res.allocate(1, 1); *mark[1] = 0x5a; for (int i = 2; i < 4; i++) { objs[i] = new (res.allocate(sizeof(Tracked), alignof(Tracked))) Tracked{&dtor[i], nullptr}; res.register_destructor(objs[i]); } });
         a.join(); b.join();
+        for (int i = 0; i < 4; i++) objs[i]->peer = mark[i < 2 ? 1 : 0];   // each destructor looks at a block of the other thread
         for (int i = 0; i < 4; i++) bbmc::check(dtor[i].load() == 0, "a registered destructor ran before release()");
         res.release();
         for (int i = 0; i < 4; i++) bbmc::check(dtor[i].load() == 1, dtor[i].load() == 0 ? "release() did not run a registered destructor" : "release() ran a registered destructor twice");
